@@ -364,12 +364,17 @@ func TestVerif_C55(t *testing.T) {
 		t.Fatalf("only %d scripts", len(all))
 	}
 	seed := kit.Seed()
-	// selection: thorough = every script; quick = about 1 in 40 by a seeded hash, every group represented
+	// selection: thorough = every clean and single-fault script and a seeded quarter of the pairs;
+	// quick = about 1 in 40 by a seeded hash
 	var sel []*c55Script
 	for _, s := range all {
 		h := uint64(s.idx)*2654435761 + uint64(seed)*40503
 		h ^= h >> 13
-		if kit.Thorough() || h%40 == 0 {
+		if kit.Thorough() {
+			if s.Group != "pair" || h%4 == 0 {
+				sel = append(sel, s)
+			}
+		} else if h%40 == 0 {
 			sel = append(sel, s)
 		}
 	}
@@ -380,9 +385,9 @@ func TestVerif_C55(t *testing.T) {
 	var e *vEnv
 	runs := 0
 	for _, s := range sel {
-		// mode: every script without parent; additionally with a parent snapshot for a seeded third (thorough: all)
+		// mode: every script without parent; additionally with a parent snapshot for a seeded third (thorough: fifth)
 		modes := []string{"noparent"}
-		if kit.Thorough() || (s.idx+int(seed))%3 == 0 {
+		if (s.idx+int(seed))%kit.Pick(3, 5) == 0 {
 			modes = append(modes, "parent")
 		}
 		for _, mode := range modes {
